@@ -4,9 +4,11 @@ open PdModel.Scatter PdModel.Spec
 #print axioms scatter_targets_good
 #print axioms scatter_leader_voter
 #print axioms scatter_counterexample
+#print axioms scatter_leader_counterexample
 #print axioms plan_inv
 #print axioms move_peer_preserves
 #print axioms transfer_leader_to_voter
 #print axioms forced_transfer_ok
 #print axioms scheduler_sites_guarded
+#print axioms scatter_excludes_every_other_peer
 #print axioms C11.check_iff
